@@ -481,8 +481,14 @@ theorem runPassDir_idx (p : PassT) (hp : PassOK NoID p) (c : Ctx) (fuel : Nat) (
   · cases e; exact h
   · simp only [] at e
     split at e
-    · exact runPass_idx p hp (c.withSeg (c.seg.reverseSlots (isMark c c.seg))) fuel (reverse_idx h _) e
-    · exact runPass_idx p hp c fuel h e
+    · cases e
+    · split at e
+      · cases e
+      · split at e
+        · cases e; exact h
+        · split at e
+          · exact runPass_idx p hp (c.withSeg (c.seg.reverseSlots (isMark c c.seg))) fuel (reverse_idx h _) e
+          · exact runPass_idx p hp c fuel h e
 
 /-- **a run of passes whose code neither inserts nor deletes keeps the index permutation** -/
 theorem runRange_idx (passes : Array PassT) (c : Ctx) (lo hi fuel : Nat)
